@@ -163,6 +163,12 @@ class ArgumentParser(argparse.ArgumentParser):
                 help=_("show this help message and exit"),
             )
 
+        # add parent arguments and defaults (like `argparse.ArgumentParser.__init__` does, after the
+        # help action: we passed `parents=[]` to `super().__init__` above.)
+        for parent in self._parents:
+            self._add_container_actions(parent)
+            self._defaults.update(getattr(parent, "_defaults", {}))
+
         self.config_path = Path(config_path) if isinstance(config_path, str) else config_path
         if add_config_path_arg is None:
             # By default, add a config path argument if a config path was passed.
